@@ -13,6 +13,8 @@ import subprocess
 import sys
 import tempfile
 import time
+import warnings
+warnings.filterwarnings("ignore")
 
 HERE = os.path.dirname(os.path.abspath(__file__))
 VERIF = os.path.dirname(HERE)
@@ -51,7 +53,7 @@ os.environ[GUARD] = "1"
 
 @contextlib.contextmanager
 def locked(name="lake"):
-    path = os.path.join(BUILD, ".%s.lock" % name)
+    path = os.path.join(BUILD, ".lake.lock")
     with open(path, "w") as f:
         fcntl.flock(f, fcntl.LOCK_EX)
         try:
